@@ -2,6 +2,7 @@
 
 
 from pyformlang.cfg.epsilon import Epsilon
+from pyformlang.cfg.terminal import Terminal
 from pyformlang.cfg.cfg import NotParsableException
 from pyformlang.cfg.parse_tree import ParseTree
 from pyformlang.cfg.set_queue import SetQueue
@@ -225,7 +226,10 @@ class LLOneParser:
                 return parse_tree
             if current == "$":
                 raise NotParsableException
-            if current.value == word[-1]:
+            # Only a terminal can match the input (a variable could be
+            # named like the end marker)
+            if isinstance(current.value, Terminal) and \
+                    current.value == word[-1]:
                 word.pop()
             else:
                 rule_applied = list(parsing_table.get(current.value, {})
